@@ -305,3 +305,107 @@ pub(crate) fn verify_nonexistence<TC: Configuration>(
     verify_nonmembership::<TC>(root_hash, nonmembership_proof)?;
     Ok(())
 }
+
+/// Verification hooks (only with `--cfg facebook_akd_verif`): public wrappers around the
+/// crate-private verification helpers of this module, so that an external harness crate can
+/// drive each of them directly. They add no behaviour.
+#[cfg(facebook_akd_verif)]
+pub mod verif_hooks {
+    use super::*;
+
+    /// [super::verify_existence]
+    pub fn verify_existence<TC: Configuration>(
+        vrf_public_key: &[u8],
+        root_hash: Digest,
+        akd_label: &AkdLabel,
+        freshness: VersionFreshness,
+        version: u64,
+        vrf_proof: &[u8],
+        membership_proof: &MembershipProof,
+    ) -> Result<(), VerificationError> {
+        super::verify_existence::<TC>(
+            vrf_public_key,
+            root_hash,
+            akd_label,
+            freshness,
+            version,
+            vrf_proof,
+            membership_proof,
+        )
+    }
+
+    /// [super::verify_existence_with_val]
+    #[allow(clippy::too_many_arguments)]
+    pub fn verify_existence_with_val<TC: Configuration>(
+        vrf_public_key: &[u8],
+        root_hash: Digest,
+        akd_label: &AkdLabel,
+        akd_value: &AkdValue,
+        epoch: u64,
+        commitment_nonce: &[u8],
+        freshness: VersionFreshness,
+        version: u64,
+        vrf_proof: &[u8],
+        membership_proof: &MembershipProof,
+    ) -> Result<(), VerificationError> {
+        super::verify_existence_with_val::<TC>(
+            vrf_public_key,
+            root_hash,
+            akd_label,
+            akd_value,
+            epoch,
+            commitment_nonce,
+            freshness,
+            version,
+            vrf_proof,
+            membership_proof,
+        )
+    }
+
+    /// [super::verify_existence_with_commitment]
+    #[allow(clippy::too_many_arguments)]
+    pub fn verify_existence_with_commitment<TC: Configuration>(
+        vrf_public_key: &[u8],
+        root_hash: Digest,
+        akd_label: &AkdLabel,
+        commitment: AzksValue,
+        epoch: u64,
+        freshness: VersionFreshness,
+        version: u64,
+        vrf_proof: &[u8],
+        membership_proof: &MembershipProof,
+    ) -> Result<(), VerificationError> {
+        super::verify_existence_with_commitment::<TC>(
+            vrf_public_key,
+            root_hash,
+            akd_label,
+            commitment,
+            epoch,
+            freshness,
+            version,
+            vrf_proof,
+            membership_proof,
+        )
+    }
+
+    /// [super::verify_nonexistence]
+    pub fn verify_nonexistence<TC: Configuration>(
+        vrf_public_key: &[u8],
+        root_hash: Digest,
+        akd_label: &AkdLabel,
+        freshness: VersionFreshness,
+        version: u64,
+        vrf_proof: &[u8],
+        nonmembership_proof: &NonMembershipProof,
+    ) -> Result<(), VerificationError> {
+        super::verify_nonexistence::<TC>(
+            vrf_public_key,
+            root_hash,
+            akd_label,
+            freshness,
+            version,
+            vrf_proof,
+            nonmembership_proof,
+        )
+    }
+}
